@@ -183,6 +183,18 @@ func (c *verCase) run() {
 			sqlh.Exec(db, "begin")
 			sqlh.Exec(db, fmt.Sprintf(`insert into "%s" values(?,?,?)`, t), 20+c.r.Intn(5), wt, "y")
 			sqlh.Exec(db, fmt.Sprintf(`delete from "%s" where k=?`, t), c.r.Intn(10))
+			// s3db_version() in the middle of a transaction that has written: it either declines, or names
+			// exactly the rows visible right now (which are not committed anywhere yet)
+			if v, err := sqlh.Query(db, "select s3db_version(?)", t); err == nil && len(v) == 1 {
+				c.st.Count("version_inside_transaction_answered")
+				now, _ := sqlh.Query(db, fmt.Sprintf(`select k,a,b from "%s" order by k`, t))
+				vb, _ := hexDecode(strings.TrimPrefix(v[0][0], "T:"))
+				if got, rerr := c.readVersion(string(vb)); rerr == nil && strings.Join(got, " | ") != strings.Join(sqlh.SortedRows(now), " | ") {
+					c.fail(fmt.Sprintf("s3db_version() inside a transaction returned %s, which reads as %v while the connection sees %v", vb, got, sqlh.SortedRows(now)))
+				}
+			} else {
+				c.st.Count("version_inside_transaction_declined")
+			}
 			sqlh.Exec(db, gen.Pick(c.r, []string{"commit", "commit", "rollback"}))
 		case op < 10:
 			what = "no-op statement"
@@ -337,7 +349,7 @@ func verCmd(args []string) int {
 	fs.Parse(args)
 	setKnown(*kn)
 	st := NewStats("ver", *seed)
-	st.Rule = "histories of 6-20 steps by 1-3 writers (inserts, updates, deletes, re-inserts, transactions, no-op statements, refreshes that merge); s3db_version() and the rows are recorded after every step including the empty table; at later steps earlier versions are re-read through a restricted read-only open (Go API) and through s3db_changes(from='[]'); s3db_changes is then queried for ordered pairs of snapshots and checked for soundness and completeness against the recorded rows, and every 5th pair is re-run with a single failing request (transport error, expired context, or a NoSuchKey answer) at EVERY request index; distinct = distinct history (all non-trivial)"
+	st.Rule = "histories of 6-20 steps by 1-3 writers (inserts, updates, deletes, re-inserts, transactions, no-op statements, refreshes that merge); s3db_version() asked inside a writing transaction must decline or name the rows visible right then; s3db_version() and the rows are recorded after every step including the empty table; at later steps earlier versions are re-read through a restricted read-only open (Go API) and through s3db_changes(from='[]'); s3db_changes is then queried for ordered pairs of snapshots and checked for soundness and completeness against the recorded rows, and every 5th pair is re-run with a single failing request (transport error, expired context, or a NoSuchKey answer) at EVERY request index; distinct = distinct history (all non-trivial)"
 	isChild, from, to := childRange()
 	if !isChild {
 		NewEmitter(*outp+".ops", *outp+".exp").Close()
